@@ -352,6 +352,7 @@ where
     unsafe fn get_unchecked(&self, i: usize) -> Self::Item {
         let mut cur_i = i;
         let mut result: u32 = 0;
+        let mut plain_result = T::zero(); // plain symbols may need more than 32 bits
 
         let mut shift = 0;
 
@@ -362,6 +363,7 @@ where
 
             let symbol = self.bvs[level].get_unchecked(cur_i);
             result = (result << 1) | symbol as u32;
+            plain_result = (plain_result << 1) | (symbol as usize).as_();
 
             let tmp = self.bvs[level].rank1_unchecked(cur_i);
 
@@ -380,7 +382,7 @@ where
 
             T::from(self.codes_decode.as_ref().unwrap()[shift][idx].1).unwrap()
         } else {
-            T::from(result).unwrap()
+            plain_result
         }
     }
 }
@@ -418,7 +420,11 @@ where
         }
 
         for level in 0..symbol_len {
-            let bit = ((repr >> (symbol_len - level - 1)) & 1) == 1;
+            let bit = if COMPRESSED {
+                ((repr >> (symbol_len - level - 1)) & 1) == 1
+            } else {
+                ((symbol >> (symbol_len - level - 1)).as_() & 1) == 1
+            };
 
             let offset = self.bvs[level].n_zeros();
 
@@ -465,7 +471,11 @@ where
         for level in 0..symbol_len {
             path_off.push(b);
 
-            let bit = ((repr >> (symbol_len - level - 1)) & 1) == 1;
+            let bit = if COMPRESSED {
+                ((repr >> (symbol_len - level - 1)) & 1) == 1
+            } else {
+                ((symbol >> (symbol_len - level - 1)).as_() & 1) == 1
+            };
 
             let rank_b = if bit {
                 self.bvs[level].rank1(b)
@@ -482,7 +492,11 @@ where
         for level in (0..symbol_len).rev() {
             b = path_off[level];
             let rank_b = rank_path_off[level];
-            let bit = ((repr >> (symbol_len - level - 1)) & 1) == 1;
+            let bit = if COMPRESSED {
+                ((repr >> (symbol_len - level - 1)) & 1) == 1
+            } else {
+                ((symbol >> (symbol_len - level - 1)).as_() & 1) == 1
+            };
 
             result = if bit {
                 self.bvs[level].select1(rank_b + result)
